@@ -220,6 +220,14 @@ func (ce *clauseEnv) tr(x *SX, bound map[string]bool, old bool) *SX {
 		return out
 	case "_":
 		return x
+	case "called":
+		// (called G#n): on this path the call site G#n has been executed (sites of functions that return an error)
+		if len(x.List) == 2 && !x.List[1].IsLst {
+			if _, ok := ce.st.callErrs["call["+x.List[1].Atom+"]"]; ok {
+				return atom("true")
+			}
+			return atom("false")
+		}
 	case "codecOf":
 		if len(x.List) == 2 && !x.List[1].IsLst {
 			h := ce.tr(x.List[1], bound, old).String()
